@@ -64,7 +64,7 @@ class TypeRender:
 
     BYSTANDER_PROPS = ('C02', 'C03', 'C05', 'C06', 'C07', 'C09', 'C10')
 
-    FIELD_TYPES = {'A': 'TA', 'B': 'TB', 'P': 'P', 'ref': "&'static P", 'bool': 'bool', 'u64': 'u64', 'unit': '()', 'char': 'char',
+    FIELD_TYPES = {'A': 'TA', 'B': 'TB', 'P': 'P', 'ref': "&'static P", 'refmut': "&'static mut P", 'bool': 'bool', 'u64': 'u64', 'unit': '()', 'char': 'char',
                    'str': "&'static str", 'nz': '::core::num::NonZeroU8', 'opt': 'Option<u8>', 'nested': 'probes::Inner'}
     with_finger = True
 
@@ -105,7 +105,12 @@ class TypeRender:
         self.sites.append((site, cls, n))
         if S is None:
             S = V
-        return opts[k].replace('$T', T).replace('$P', P).replace('$V', str(V)).replace('$S', str(S))
+        out = opts[k].replace('$T', T).replace('$P', P)
+        if '$X' in out or '$U' in out:
+            n_ = int(V)
+            sign = '-' if n_ < 0 else ''
+            out = out.replace('$X', '%s0x%X' % (sign, abs(n_))).replace('$U', '%s0_%disize' % (sign, abs(n_)))
+        return out.replace('$V', str(V)).replace('$S', str(S))
 
     def order(self, items, site):
         if len(items) < 2:
@@ -456,6 +461,8 @@ class TypeRender:
             return 'T%s::new(%s, %d, %s)' % (ty, side, i, val)
         if ty == 'ref':
             return '&*Box::leak(Box::new(P::new(%s, %d, %s)))' % (side, i, val)
+        if ty == 'refmut':
+            return 'Box::leak(Box::new(P::new(%s, %d, %s)))' % (side, i, val)
         return 'probes::mk_%s(%s)' % (ty, val)
 
     def var_pattern(self, v, var, names):
